@@ -274,7 +274,7 @@ func runConc(e *env) {
 		want++
 		simrt.Go("conc-flusher", func() {
 			defer func() { done++ }()
-			simrt.Sleep("flusher-delay", time.Duration(st.A)*time.Millisecond)
+			simrt.Yield("flusher-delay", st.A)
 			ctx, cancel := context.WithTimeout(context.Background(), 10*time.Minute)
 			defer cancel()
 			flushRan = true
